@@ -115,18 +115,19 @@ impl<'s> Iterator for StripStrIter<'s> {
 fn next_str<'s>(bytes: &mut &'s [u8], state: &mut State) -> Option<&'s str> {
     let offset = bytes.iter().copied().position(|b| {
         let (next_state, action) = state_change(*state, b);
-        if next_state != State::Anywhere {
+        // `str` is already validated, no need to track multi-byte characters
+        if next_state != State::Anywhere && next_state != State::Utf8 {
             *state = next_state;
         }
         is_printable_bytes(action, b)
     });
     let (_, next) = bytes.split_at(offset.unwrap_or(bytes.len()));
     *bytes = next;
-    *state = State::Ground;
 
+    // Outside of `Ground`, only whitespace is printable, leaving the rest for the next call
     let offset = bytes.iter().copied().position(|b| {
-        let (_next_state, action) = state_change(State::Ground, b);
-        !(is_printable_bytes(action, b) || is_utf8_continuation(b))
+        let (_next_state, action) = state_change(*state, b);
+        !(is_printable_bytes(action, b) || (*state == State::Ground && is_utf8_continuation(b)))
     });
     let (printable, next) = bytes.split_at(offset.unwrap_or(bytes.len()));
     *bytes = next;
@@ -309,16 +310,18 @@ fn next_bytes<'s>(
             }
             false
         } else {
-            let (next_state, action) = state_change(State::Ground, b);
+            // Outside of `Ground`, only whitespace is printable, leaving the rest for the next call
+            let (next_state, action) = state_change(*state, b);
+            if !is_printable_bytes(action, b) {
+                return true;
+            }
             if next_state != State::Anywhere {
                 *state = next_state;
             }
             if *state == State::Utf8 {
                 utf8parser.add(b);
-                false
-            } else {
-                !is_printable_bytes(action, b)
             }
+            false
         }
     });
     let (printable, next) = bytes.split_at(offset.unwrap_or(bytes.len()));
